@@ -93,6 +93,27 @@ def main(tier, replay=None):
                                     init_pairs=rng.choice([0, 0, 3])) for _ in range(nexec // 3)]
         camp.run(hdr, ex, "random/" + name, variant=name)
 
+    # ---- 4. large tables: growth and shrinkage across many rehash sizes (5, 11, 23, 53, 101, 197, 389, 683, ...), sampled projection
+    big = 700 if quick else 5000
+    ks = sorted({rng.choice([0, 3, 54]) + 55 * rng.randrange(0, 40 * big) for _ in range(big)})       # three residue classes mod 5 and 11
+    L = ["reset", "new 1 Table"]
+    order = list(range(1, len(ks) + 1))
+    rng.shuffle(order)
+    step = max(1, len(order) // 6)
+    for i, k in enumerate(order):
+        L.append("set 1 %d %d" % (k, 1 + k % 3))
+        if i % step == 0:
+            L.append("snap 1")
+    L.append("copy 2 1"); L.append("snap 2")
+    rm = order[:]
+    rng.shuffle(rm)
+    for i, k in enumerate(rm[: len(rm) * 5 // 6]):
+        L.append("rem 1 %d" % k)
+        if i % step == 0:
+            L.append("snap 1")
+    L += ["snap 1", "resize 1 %d" % (2 * big), "snap 1", "resize 1 0", "snap 1", "set 1 %d 2" % order[0], "snap 1", "snap 2"]
+    camp.run(["light 6"] + mapgen.header("Int", "Int", ks, [1, 2, 3]), [L], "large/Int", sample=False)
+
     chk.cov["rule"] = ("an execution = one history of public Table calls replayed on the real library; distinct = "
                        "different operation sequence or key type; every event carries the full projection "
                        "(len, iteration both ways, get+mem of every key of the universe) and is judged by TLC against FiniteMap")
